@@ -29,6 +29,11 @@ def run_scheduled(mode, schedule, workdir, idx, delay=""):
         env["STUB_OUT"] = grep_file
         child = f"{core.DELTA} --no-gitconfig --paging never --line-numbers git grep -n foo"   # (--line-numbers makes Config::from ask for the calling process: the earliest query there is)
         stdin = b""
+    elif mode == "wrapopt":
+        # a global option of git in front of the subcommand: still a command delta launched and knows
+        env["STUB_OUT"] = os.path.join(workdir, "grep.txt")
+        child = f"{core.DELTA} --no-gitconfig --paging never --line-numbers git --no-pager grep -n foo"
+        stdin = b""
     elif mode == "wrapother":
         # a launched command that delta does not classify (git status): nothing is published, the guess must still arrive
         env["STUB_OUT"] = os.path.join(workdir, "grep.txt")
@@ -118,6 +123,8 @@ def run(tier):
         jobs.append((mode, [], ""))           # unconstrained run: the reference output
         if mode == "stdin":
             jobs += [("wrapother", s, "") for s in scheds[:: 2 if tier == "quick" else 1]] + [("wrapother", [], "")]
+        else:
+            jobs += [("wrapopt", s, "") for s in scheds[:: 2 if tier == "quick" else 1]] + [("wrapopt", [], "")]
     log(f"[{PID}] design level: {sum(m.distinct for m in mcs.values())} states, all interleavings safe and live; "
         f"{len(jobs)} schedules to force on the binary")
     res = core.pmap(lambda ij: run_scheduled(ij[1][0], ij[1][1], workdir, ij[0], ij[1][2]), list(enumerate(jobs)), jobs=8)
@@ -134,14 +141,14 @@ def run(tier):
     for i, r in enumerate(res):
         if suspicious(r):
             res[i] = run_scheduled(jobs[i][0], jobs[i][1], workdir, 10000 + i, jobs[i][2])
-    ref = {m: next(r for (mm, s, d), r in zip(jobs, res) if mm == m and not s) for m in ("wrap", "stdin", "wrapother")}
+    ref = {m: next(r for (mm, s, d), r in zip(jobs, res) if mm == m and not s) for m in ("wrap", "stdin", "wrapother", "wrapopt")}
     events = []
     uninformative = 0
     for i, ((mode, sched, delay), r) in enumerate(zip(jobs, res)):
         if foreign_guess(r):
             uninformative += 1      # (also when repeated alone: left out of the trace validation, never a verdict)
             continue
-        events.append({"run": i, "label": "reset", "value": "stdin" if mode == "wrapother" else mode})
+        events.append({"run": i, "label": "reset", "value": "stdin" if mode == "wrapother" else "wrap" if mode == "wrapopt" else mode})
         for e in r["events"]:
             if e["label"] in ("b_released", "m_released") and e["value"] != "TIMEOUT":
                 continue          # waiting points after the mutex was released: not model actions
